@@ -8,6 +8,7 @@ import (
 	"fmt"
 	"strconv"
 	"strings"
+	"sync"
 	_ "unsafe"
 
 	_ "git.defalsify.org/vise.git/asm"
@@ -99,6 +100,10 @@ func byteWidth(n uint32) int {
 	}
 	return 4
 }
+
+// the disassembler handler of the "str" operations: one object for the whole run, so that state kept between calls shows
+var strHandler *vm.ParseHandler
+var strHandlerMu sync.Mutex
 
 func minBE(n uint32) []byte {
 	w := byteWidth(n)
@@ -432,6 +437,10 @@ func init() {
 					names = append(names, i.String())
 				}
 				ls = append(ls, "prog "+strings.Join(names, ","))
+				if len(b) > 3 {
+					// a listing that fails half way, right before the listing of the whole program (same handler object)
+					ls = append(ls, "str "+hx(b[:len(b)-1]))
+				}
 				ls = append(ls, "parse "+hx(b), "str "+hx(b), "one "+hx(b))
 				// truncations: all for short programs, a sample for long ones
 				step := 1
@@ -608,7 +617,12 @@ func init() {
 				var p interface{}
 				func() {
 					defer func() { p = recover() }()
-					txt, err = vm.NewParseHandler().WithDefaultHandlers().ToString(b)
+					strHandlerMu.Lock()
+					if strHandler == nil {
+						strHandler = vm.NewParseHandler().WithDefaultHandlers()
+					}
+					txt, err = strHandler.ToString(b)
+					strHandlerMu.Unlock()
 				}()
 				if p != nil {
 					c.Fail("C15", "panic", fmt.Sprintf("ToString(%s) panicked: %v", f[1], p))
@@ -616,6 +630,21 @@ func init() {
 				}
 				if err != nil {
 					return "err"
+				}
+				// the listing is the instructions of THIS byte string, whatever the handler listed before
+				if got, derr, dp := collect(b); derr == nil && dp == nil {
+					var is []GInstr
+					okAll := true
+					for _, g := range got {
+						gi, ok := parseGInstr(g)
+						if !ok {
+							okAll = false
+						}
+						is = append(is, gi)
+					}
+					if okAll && txt != prettyExpect(is) {
+						c.Fail("C14", "listing", fmt.Sprintf("ToString(%s) = %q, the instructions are %v", f[1], txt, got))
+					}
 				}
 				return "ok " + hx([]byte(txt))
 			case "one":
